@@ -151,4 +151,34 @@ func init() {
 		NotDecided:  "that each tag sequence is a valid path of the descriptor; span ranges; comment text",
 		Rules:       []func(*World){rxSourceInfo},
 	})
+	register(&Property{
+		ID:          "C13",
+		Explanation: "RQ: for every readRune call in a protoLex method, assuming the returned rune is a newline, every path feasible under that assumption (branch conditions over the rune, constants and strings.ContainsRune are evaluated; others explored both ways) passes maybeNewLine(rune) or un-reads the rune (with the size of the same read) or is the read-failed path, before the next readRune or any return: every consumed newline reaches FileInfo's line table.",
+		NotDecided:  "column arithmetic (tab stops, multi-byte runes) and span ordering",
+		Rules:       []func(*World){rqNewlines},
+	})
+	register(&Property{
+		ID:          "C12",
+		Explanation: "RQ (shared with C13): a position computed after an unregistered newline names a line/column that does not exist. RQ2: parser.Parse returns a nil AST only on the reader-error path, otherwise the returned AST is non-nil on every path (nil-check fallback dominates) and the error is exactly handler.Error().",
+		NotDecided:  "panic-freedom of the generated parser and the AST constructors on arbitrary bytes; that converting the AST to a descriptor never panics",
+		Rules:       []func(*World){rqNewlines, rqParseShape},
+	})
+	register(&Property{
+		ID:          "C14",
+		Explanation: "RP (sibling contradiction): the escape tables of the three string-literal decoders in the repository (parser lexer, fast scanner, linker.unescape) are extracted from their switch statements (letters per clause computed by evaluating the case conditions over all ASCII values; produced byte read from the single write of a simple clause) and must agree on the simple escapes and their bytes and on the multi-character introducers; each must equal the language specification's 11 simple escapes. RCF: no unreviewed case folding in the lexer/AST literal code.",
+		NotDecided:  "agreement with protoc on hex/octal/unicode digit handling, numeric literal values, overflow behaviour",
+		Rules:       []func(*World){rpC14, rcfCaseFolding},
+	})
+	register(&Property{
+		ID:          "C25",
+		Explanation: "RP restricted to the parser's and the fast scanner's string decoders (same tables), plus modifier agreement: the import modifiers fastscan.Scan recognises equal the keyword alternatives of importDecl in parser/proto.y.",
+		NotDecided:  "statement boundary detection over arbitrary token streams; package name assembly",
+		Rules:       []func(*World){rpC25},
+	})
+	register(&Property{
+		ID:          "C26",
+		Explanation: "RP writer↔reader: every simple escape internal.EscapeBytes emits is decoded by linker.unescape to the same byte; the writer's octal form is exactly three digits and the reader consumes at most three; all octal digits introduce the octal branch in the reader; EscapeBytes reads its input only through len(data)/data[i] (a per-byte map, so table agreement covers every input).",
+		NotDecided:  "protobuf-go's own unescaper (quick tier); strconv/utf8 are trusted",
+		Rules:       []func(*World){rpC26},
+	})
 }
